@@ -123,6 +123,37 @@ class Lin:
         self.prov = Prov(fn)
         self.upper = upper   # True: over-approximate roundings (allocation side); False: under-approximate (estimate side)
 
+    def _accumulator(self, l, depth):
+        base = None
+        arms = []
+        for bi, de in self.prov.def_exprs(l):
+            d = de
+            while d[0] == 'cast' or (d[0] == 'field' and d[2] == '0' and d[1][0] == 'bin'):
+                d = d[2] if d[0] == 'cast' else d[1]
+            if d[0] == 'bin' and d[1].startswith('Add') and d[2][0] == 'local' and d[2][1] == l:
+                x = self.of(d[3], depth + 1)
+                if x is None:
+                    return None
+                arms.append(x)
+            elif not any(y[0] == 'local' and y[1] == l for y in expr_walk(d)):
+                if base is not None:
+                    return None
+                base = self.of(d, depth + 1)
+                if base is None:
+                    return None
+            else:
+                return None
+        if base is None:
+            return None
+        out = dict(base)
+        if arms:
+            keys = set().union(*[set(a) for a in arms])
+            for k in keys:
+                v = min(a.get(k, Fraction(0)) for a in arms)
+                if v != 0:
+                    out[k] = out.get(k, Fraction(0)) + v
+        return out
+
     def of(self, e, depth=0):
         if depth > 30:
             return None
@@ -151,8 +182,15 @@ class Lin:
         if k == 'param':
             return {('p', e[2]): Fraction(1)}
         if k == 'local':
-            # a multi-definition local: opaque on the allocation side, undecidable on the estimate side
-            return {('opq', 'local ' + str(e[2])): Fraction(1)} if self.upper else None
+            if not self.upper:
+                # estimate side: an accumulator `let mut m = c; match .. { m += x, .. }`: constant start plus, per atom, the
+                # smallest contribution over the alternative additions (a sound lower bound of the estimate)
+                acc = self._accumulator(e[1], depth)
+                if acc is not None:
+                    return acc
+                return None
+            # a multi-definition local: opaque on the allocation side
+            return {('opq', 'local ' + str(e[2])): Fraction(1)}
         if k == 'bin':
             op = e[1].replace('WithOverflow', '').replace('Unchecked', '')
             a, b = self.of(e[2], depth + 1), self.of(e[3], depth + 1)
@@ -203,6 +241,10 @@ class Lin:
             short = '::'.join(name.split('::')[-2:])
             return {('call', short, tuple(fa)): Fraction(1)}
         return None
+
+
+def _acc_helper():
+    pass
 
 
 def substitute(l, mapping):
@@ -289,12 +331,15 @@ class Allocs:
 
 # (constructor key, atom text) -> reason. One symbol, one reason.
 EXCEPTIONS = {
+    ('LZMAEncoder::new', 'LZMAEncoder::get_dist_slot(dict_size + -1)'): 'distance-slot price rows: at most 64 u32 entries per row (get_dist_slot <= 63), 1 KiB in total, inside the fixed 80 KiB',
+    ('LZMAEncoder::new', 'Ord::max(nice_len + -1, 16)'): 'length price tables: at most 272 entries (nice_len <= 273), about 2 KiB per length encoder, inside the fixed 80 KiB',
+    ('LZMAEncoder::new', '2^(pb)'): 'length coder tables: 56 bytes per position state, pb <= 4 gives 896 bytes, inside the fixed 80 KiB',
     ('LZEncoder::new', 'nice_len'): 'Matches::new(nice_len - 1): two 4-byte tables of at most 272 entries (nice_len <= 273 is the '
                                     'format maximum), about 2 KiB, inside the fixed 80 KiB slack of LZMAEncoder::get_mem_usage',
 }
 
 
-@rule('ESTIMATE-TWIN', ['C17'], floor=7, thorough_configs=('nostd',))
+@rule('ESTIMATE-TWIN', ['C17'], floor=11, thorough_configs=('nostd',))
 def estimate_twin(ctx):
     """For every type that has a memory estimator in the public estimators' call tree, the bytes its
     constructor allocates (sum over allocation sites, inlined through helper constructors, element size from
@@ -426,3 +471,86 @@ def estimate_twin(ctx):
         ctx.note(s)
     if n == 0:
         ctx.anchor_missing('decidable estimator / constructor pairs')
+
+
+
+@rule('EST-SELECTOR', ['C17'], floor=7)
+def est_selector(ctx):
+    """The memory estimators follow the same selectors as the constructors: wherever a function in the
+    estimators' call tree passes a match-finder or mode selector (an enum of the option struct) on to another
+    estimator, it passes the value it was given, not a constant - a constant makes the estimate independent
+    of the option while the constructor still honours it."""
+    F = ctx.facts
+    roots = estimator_roots(F)
+    if not roots:
+        return ctx.anchor_missing('public memory estimators')
+    R = F.reachable_fns(roots)
+    n = 0
+    for p in sorted(R):
+        f = F.by_path[p]
+        if f.kind == 'closure':
+            continue
+        prov = None
+        for bi, t, c in f.calls():
+            gs = [g for g in F.resolve_callee(c) if g.path in R]
+            if not gs:
+                continue
+            g = gs[0]
+            for ai, a in enumerate(t['args']):
+                if ai + 1 > g.arg_count:
+                    continue
+                ty = g.local_ty(ai + 1)
+                if last_seg(ty) not in ('MFType', 'EncodeMode'):
+                    continue
+                prov = prov or Prov(f)
+                e = prov.operand(a, 0, '%d:T' % bi)
+                n += 1
+                key = '%s->%s:%s' % (f.key, g.key, last_seg(ty))
+                if e[0] in ('param', 'field', 'deref') or any(x[0] in ('param', 'field') for x in expr_walk(e)):
+                    ctx.ok(key, f.loc(bi), 'selector passed through (%s)' % expr_str(e)[:40])
+                else:
+                    ctx.violation(key, f.loc(bi), 'the estimator %s calls %s with the constant selector %s instead of the caller\'s option: the estimate no longer '
+                                  'follows the option although the constructor does' % (f.key, g.key, expr_str(e)[:40]))
+    if n == 0:
+        ctx.anchor_missing('selector arguments in the estimator tree')
+
+
+@rule('SINGLE-ENCODER', ['C17'], floor=1)
+def single_encoder(ctx):
+    """The estimators count one encoder per writer. A writer method that replaces its encoder therefore must
+    not hold two at once: in a `&mut self` method, a call to the constructor of a separately estimated type
+    (an allocating encoder) whose result is stored into a field that still holds the previous encoder doubles
+    the peak (new one built first, old one dropped by the assignment)."""
+    F = ctx.facts
+    roots = estimator_roots(F)
+    R = F.reachable_fns(roots)
+    est_types = {F.by_path[p].self_adt for p in R if F.by_path[p].self_adt and not (
+        F.by_path[p].arg_count >= 1 and F.by_path[p].locals[1].get('name') == 'self')}
+    # the big ones: types whose constructor (transitively) allocates a dictionary-sized buffer
+    n = 0
+    for f in F.fns:
+        if f.kind == 'closure' or not f.self_adt or not (f.arg_count >= 1 and f.local_ty(1).startswith('&mut')):
+            continue
+        if 'Writer' not in last_seg(f.self_adt):
+            continue
+        prov = None
+        for bi, t, c in f.calls():
+            gs = [g for g in F.resolve_callee(c) if g.self_adt in est_types and last_seg(g.self_adt) == 'LZMAEncoder' and
+                  not (g.arg_count >= 1 and g.locals[1].get('name') == 'self') and g.name == 'new']
+            if not gs:
+                continue
+            n += 1
+            key = '%s:replaces-encoder-in-place' % f.key
+            # is the old encoder released before this call? (Option::take / mem::replace / mem::take on the field, dominating the call)
+            released = False
+            prov = prov or Prov(f)
+            for b2, t2, c2 in f.calls():
+                if c2.is_('Option::take', 'mem::replace', 'mem::take', 'mem::drop') and f.dominates(b2, bi):
+                    released = True
+            if released:
+                ctx.ok(key, f.loc(bi), 'the previous encoder is released before the new one is built')
+            else:
+                ctx.violation(key, f.loc(bi), 'a second encoder is built while `self` still owns the first (the old one is only dropped by the assignment): '
+                              'the peak is about twice what the estimator returns at every independent chunk start')
+    if n == 0:
+        ctx.info('no-in-place-replacement', '-', 'no writer method rebuilds its encoder')
